@@ -1,7 +1,7 @@
 (* Derived big-step rules for the plain (flag-free) interpreter: no fuel arithmetic leaks out. *)
 From Coq Require Import List Arith NArith ZArith Bool Lia.
 Import ListNotations.
-From Orca Require Import Flat Tree WasmP SemProofs.
+From Orca Require Import Flat Tree TreeLower WasmP SemProofs.
 
 Section EvalP.
 Variable ftypes : list (nat * nat).
@@ -51,7 +51,6 @@ Proof.
 Qed.
 
 (* straight-line probe code inserted as instructions *)
-Definition ins (code : list fop) : list instr := map (IPlain 0) code.
 Definition pcode (code : list fop) : Prop := forallb is_plain code = true.
 
 Lemma run_code_not_fuel code : forall c, run_code code c <> OFuel.
